@@ -13,7 +13,7 @@ def handle (c obs : String) : String × Bool × String :=
   match parseCase c with
   | none => ("bad-case", false, "unparsable case")
   | some (p, rs) =>
-    let model := modelText p rs
+    let model := agreeOr { result := false, delivered := false, events := fun c => c == 'O' || c == 'o' || c == 'C' } (modelText p rs) obs
     match parseObs obs with
     | some os =>
       let bad := os.filter (fun o => !(obsBalanced o && o.pre == 0))
